@@ -19,6 +19,18 @@ Theorem C19_inv :
 Proof. exact inv_all. Qed.
 Print Assumptions C19_inv.
 
+(* what decoding a fragment against the init relies on: track ids are unique, trex ids are unique, and
+   MvexBox.GetTrex(id) finds a trex for every track of the init, after any history *)
+Theorem C19_trex_lookup :
+  forall (avc_parse : avc_parser) (hevc_parse : hevc_parser) (ops : list op),
+    N.of_nat (length ops) < 4294967295 ->
+    let s := snd (run avc_parse hevc_parse ops) in
+    NoDup (map tk_id (traks s)) /\ NoDup (trexs s)
+    /\ (forall t, In t (traks s) -> In (tk_id t) (trexs s))
+    /\ length (trexs s) = length (traks s).
+Proof. exact trex_lookup. Qed.
+Print Assumptions C19_trex_lookup.
+
 (* In-scope histories (media types of the specification table, descriptor calls on existing tracks with a
    non-empty SPS list / fscod < 3 / acmod < 8 / at least one EC-3 substream): no call panics, every call is
    executed, the next-track id is n+1 (2 while there is no track), and track i has id i+1, the supplied timescale,
@@ -177,6 +189,16 @@ Theorem C19_descriptor_stpp :
                            (CfgStpp (match ns with [] => BS "http://www.w3.org/ns/ttml" | _ => ns end) schema mime))).
 Proof. exact set_stpp_ok. Qed.
 Print Assumptions C19_descriptor_stpp.
+
+(* C19_roundtrip — PARTIAL.  Full statement (not proved here; box encoders/decoders belong to C01/C02):
+     forall in-scope ops, let init := run ops in
+       decode (encode init) = init  /\  is_fragmented_init (decode (encode init))
+       /\ forall track id of init, a fragment created for it decodes against decode (encode init).
+   Proved parts: C19_elng_roundtrip (the one variable-length box written from AddEmptyTrack's arguments, with the
+   exact length boundary), C19_language_readback (mdhd language field), C19_trex_lookup (unique ids, a trex for
+   every track: what fragment decoding needs from the init).  The rest is evaluated on the real code by the
+   search (encode -> DecodeFile -> equal Info dump, equal re-encoding, IsFragmented, single- and multi-track
+   fragments with samples read back through the trex). *)
 
 (* round trip of the extended language box (the only variable-length box AddEmptyTrack writes from its
    arguments): a tag of two or more non-NUL bytes decodes to the same tag as a full box ... *)
